@@ -152,6 +152,9 @@ def isReferenceActivated (f : FUid) : M Bool := do
 def deactivatesRef (deactivate : Bool) (f : FUid) : M Bool :=
   if deactivate then isReferenceActivated f else pure false
 
+theorem deactivatesRef_false (f : FUid) : deactivatesRef false f = pure false := rfl
+theorem deactivatesRef_true (f : FUid) : deactivatesRef true f = isReferenceActivated f := rfl
+
 def isChildActivated (f : FUid) : M Bool := do
   let x ← getInstX f
   match x.parentUid with
